@@ -81,11 +81,11 @@ def rand_history(seed: int) -> list:
             if kind == "wrap_pattern":
                 o = {"op": kind, "tag": rng.choice(["span", "a"]), "p": p}
             elif kind == "mark_content":
-                o = {"op": kind, "p": p, "nth": rng.randint(0, 1), "alone": note_ok}
+                o = {"op": kind, "p": p, "nth": rng.randint(-1, 1), "alone": note_ok}
             else:
-                o = {"op": kind, "p": p, "nth": rng.randint(0, 2), "before": rng.random() < 0.5, "alone": note_ok, "last": step == nsteps - 1}
+                o = {"op": kind, "p": p, "nth": rng.randint(-1, 2), "before": rng.random() < 0.5, "alone": note_ok, "last": step == nsteps - 1}
         elif kind == "mark_position":
-            o = {"op": kind, "pos": rng.randint(0, total + 1), "alone": note_ok}
+            o = {"op": kind, "pos": rng.randint(-1, total + 1), "alone": note_ok}
         elif kind == "mark_range":
             a = rng.randint(0, total + 1)
             o = {"op": kind, "a": a, "b": rng.randint(a, total + 2), "alone": note_ok}
